@@ -24,7 +24,7 @@ WATCHDOG = {"quick": 600, "thorough": 3000}
 WTESTS = {"groups": ['flatten'], "tests": ['tests/decay']}
 REQUIRED = {
     "subdecays>=4": 20, "mult3-of-decaying": 20, "reoccur-two-depths": 20, "mother-last": 20, "stable-nonempty": 20,
-    "stable-as-set": 5, "stable-as-tuple": 5, "visible_bf": 20, "same-shape-other-branching-fractions": 20,
+    "stable-as-set": 5, "stable-as-tuple": 5, "visible_bf": 20, "same-shape-other-branching-fractions": 20, "returned-chain-edited-then-original-compared": 50,
     "C12.flatten.leaves_and_product": 500, "C12.flatten.original_unchanged": 500,
 }
 EXHAUSTIVE_NOTE = "W-enum is exhaustive over increasing-tree shapes with <= N decaying particles (N=5 quick, 6 thorough), child multiplicities 1..3, all stable subsets"
@@ -73,6 +73,25 @@ def check_case(ctx, case, workload="enum"):
     if top.metadata.get("note") != META["note"] or top.metadata.get("model") != "PHSP" or top.metadata.get("flag") is not True \
             or top.metadata.get("model_params") != META["model_params"]:
         ctx.violate("flatten:metadata", f"top-level metadata lost: {top.metadata!r}", wit)
+    if ctx.rng.random() < 0.3:
+        # the caller edits the chain he was given (its own metadata dictionary, final state, branching fraction): the original chain and a
+        # second flattening are untouched.  (Values *nested inside* the metadata are shared by construction, as with DecayMode(**metadata); not edited.)
+        import copy  # noqa: PLC0415
+
+        ctx.hit("returned-chain-edited-then-original-compared")
+        before = copy.deepcopy(dc.to_dict())
+        first = copy.deepcopy(fl.to_dict())
+        top.metadata["model"] = "EDITED"
+        top.metadata.pop("flag", None)
+        top.metadata["added"] = 1
+        top.daughters["<edited>"] = 3
+        top.bf = -1.0
+        if dc.to_dict() != before:
+            ctx.violate("flatten:original-changes-with-edits-of-the-result", f"original chain after editing the flattened one: {dc.to_dict()!r}, before: {before!r}", wit)
+        ok2, fl2 = ctx.guard("flatten:again", wit, (lambda: dc.flatten(stable_particles=sarg) if S or stype != "list" else dc.flatten()))
+        contracts.drain()
+        if ok2 and fl2.to_dict() != first:
+            ctx.violate("flatten:second-result-depends-on-edits-of-the-first", f"{fl2.to_dict()!r} vs first {first!r}", wit)
     # classes
     occ = chains.occurrences(types, m)
     if len(types) - 1 >= 4 and not S:
